@@ -214,6 +214,10 @@ def inline_new_functions(prog):
                 continue
             if len(b.blocks) > MAX_BLOCKS:
                 continue
+            if not b.is_closure and b.name in prog.opaque_names():
+                # a function the rules know BY NAME (it merely moved, e.g. from a free function into an impl): it keeps
+                # its identity and is checked on its own
+                continue
             new[b.j["key"]] = b
         if not new:
             continue
